@@ -18,6 +18,7 @@ func runC17(c *Ctx) {
 	c.Clause("C17.3 the peer is informed where due: the non-remote, non-immediate, first-packet-sent close path reaches sendConnectionClose")
 	c.Clause("C17.4 resources: the post-loop part of run closes crypto setup, send queue, handles the close error and stops the timer; every time.NewTimer result is stopped (deferred or on the exit path) or owned by a field that is; dial cancellation waits for the run goroutine")
 	c.Clause("C17.5 idle timeout = start + max(idleTimeout, 3·PTO), checked with !now.Before(·); keep-alive interval shape")
+	c.Clause("C17.6 while Transport.mutex is held no function is called that can block on connection / server teardown (which itself needs that mutex)")
 	c.NotCovered("promptness; leak-freedom as such; timeout accuracy")
 	c.NotCovered("lost wake-ups between a state change and its signal (lock-protected predicate analysis is not armed)")
 
@@ -26,6 +27,7 @@ func runC17(c *Ctx) {
 	c.rule("C17.3", func() { c17Peer(c) })
 	c.rule("C17.4", func() { c17Resources(c) })
 	c.rule("C17.5", func() { c17Idle(c) })
+	c.rule("C17.6", func() { c17NoWaitUnderTransportMutex(c) })
 }
 
 // waitExceptions: blocking sites that are not woken by a shutdown-reachable signal, with the reason why that is right.
@@ -662,6 +664,40 @@ func c17Resources(c *Ctx) {
 		}
 	})
 	c.Check(okAF, R, "post:closed-connection stand-in is removed after expiry", c.P.Pos(phm.Pos()), "time.AfterFunc(expiry, …) deletes every replaced ID from the routing map")
+	// a send queue that is replaced is closed first, and every queue created gets its Run goroutine
+	sq := c.fld("", "Conn", "sendQueue")
+	sqClose2 := c.obj("", "sender", "Close")
+	sqRun := c.obj("", "sender", "Run")
+	nsq := c.obj("", "", "newSendQueue")
+	nRepl := 0
+	for _, f := range c.P.ScopeFuncs() {
+		if funcPkgPath(f) != modPath {
+			continue
+		}
+		for _, in := range findInstrs(f, StoresTo(sq)) {
+			in := in
+			name := funcName(rootFn(f))
+			// every new queue is run
+			started := false
+			for _, g := range withAnon(rootFn(f)) {
+				if countInstr(g, CallsTo(sqRun)) > 0 {
+					started = true
+				}
+			}
+			if strings.Contains(name, "preSetup") {
+				continue // construction: there is no previous queue; Conn.run starts its Run goroutine
+			}
+			c.Check(started, R, "pair:"+name+" starts Run for the send queue it installs", c.P.InstrPos(in), "a queue without its Run goroutine never sends")
+			nRepl++
+			w := (&Cut{Fn: f, Target: func(x ssa.Instruction) bool { return x == in }, Barrier: func(x ssa.Instruction) bool {
+				ci, ok := x.(ssa.CallInstruction)
+				return ok && CallsTo(sqClose2)(x) && len(ci.Common().Args) == 0 && Load(sq)(ci.Common().Value)
+			}}).Run()
+			c.Check(w == nil, R, "pair:"+name+" closes the send queue it replaces", c.P.InstrPos(in), "the old queue's Run goroutine ends only when Close is called: replaced without it, the goroutine outlives the connection")
+		}
+	}
+	c.Floor(R, "send queue replacements outside construction", nRepl, 1)
+	_ = nsq
 	// dial cancellation waits for the run goroutine
 	for _, t := range []string{"Transport", "UTransport"} {
 		f := c.fn("", t, "doDial")
@@ -744,6 +780,60 @@ func c17Idle(c *Ctx) {
 		}
 	})
 	c.Check(okKa, R, "shape:keep-alive = lastPacketReceivedTime + max(keepAliveInterval, ·)", c.P.Pos(ka.Pos()), "keep-alives are scheduled relative to the last received packet")
+	// the peer's max_idle_timeout only lowers the timeout when it is present (> 0)
+	atp0 := c.fn("", "Conn", "applyTransportParameters")
+	peerIdle := c.fld("internal/wire", "TransportParameters", "MaxIdleTimeout")
+	nPeer := 0
+	for _, in := range findInstrs(atp0, StoresTo(idle)) {
+		st := in.(*ssa.Store)
+		atoms := map[string]bool{}
+		termKey(st.Val, 0, atoms)
+		usesPeer := false
+		var walk func(v ssa.Value, d int)
+		walk = func(v ssa.Value, d int) {
+			if d > 6 || v == nil {
+				return
+			}
+			v = stripConv(v)
+			if f, base := loadedField(v); f != nil {
+				if f == peerIdle {
+					if bf, _ := loadedField(base); bf == nil || bf.Name() != "config" {
+						usesPeer = true
+					}
+				}
+				return
+			}
+			switch x := v.(type) {
+			case *ssa.Call:
+				for _, a := range x.Call.Args {
+					walk(a, d+1)
+				}
+			case *ssa.BinOp:
+				walk(x.X, d+1)
+				walk(x.Y, d+1)
+			case *ssa.Phi:
+				for _, e := range x.Edges {
+					walk(e, d+1)
+				}
+			}
+		}
+		walk(st.Val, 0)
+		if !usesPeer {
+			continue
+		}
+		nPeer++
+		isPeerIdle := func(v ssa.Value) bool {
+			f, base := loadedField(stripConv(v))
+			if f != peerIdle {
+				return false
+			}
+			bf, _ := loadedField(base)
+			return bf == nil || bf.Name() != "config"
+		}
+		c.Check(dominatedByEdge(st.Block(), Rel{Op: token.GTR, X: isPeerIdle, Y: ConstI(0)}, false), R, "guard:the peer's max_idle_timeout is used only when present", c.P.InstrPos(in),
+			"RFC 9000 §10.1: an absent (zero) max_idle_timeout means the peer does not limit the idle period; taking min() with it sets the timeout to 3 PTO")
+	}
+	c.Floor(R, "idle timeout stores that use the peer's value", nPeer, 1)
 	// keepAliveInterval = min(KeepAlivePeriod, idleTimeout/2)
 	atp := c.fn("", "Conn", "applyTransportParameters")
 	okI := false
@@ -954,4 +1044,147 @@ func inCycle(b *ssa.BasicBlock) bool {
 		work = append(work, x.Succs...)
 	}
 	return false
+}
+
+// c17NoWaitUnderTransportMutex: connection and server teardown take Transport.mutex (Remove, ReplaceWithClosed, closeServer …);
+// a call that waits for that teardown must therefore not be made while the mutex is held.
+func c17NoWaitUnderTransportMutex(c *Ctx) {
+	const R = "C17.6"
+	mu := c.fld("", "Transport", "mutex")
+	// functions that can block: contain a blocking wait site (other than provably non-blocking sends), transitively
+	inScope := func(pk string) bool { return pk == modPath }
+	blocking := map[*ssa.Function]string{}
+	for _, w := range c.P.waitSites(inScope) {
+		if w.Kind == "send" && c17BufferedOnce(w) {
+			continue
+		}
+		// the 1-slot semaphores of the streams are not teardown waits
+		sem := false
+		for _, cl := range w.Classes {
+			if _, ok := waitExceptions[classField(cl)]; ok {
+				sem = true
+			}
+		}
+		if sem {
+			continue
+		}
+		blocking[w.Fn] = c.P.InstrPos(w.Instr)
+	}
+	c.Floor(R, "functions with a blocking wait", len(blocking), 20)
+	// transitive closure over static calls and module-interface invokes (go statements do not block the caller)
+	mayBlock := map[*ssa.Function]string{}
+	for f, pos := range blocking {
+		mayBlock[f] = "waits at " + pos
+	}
+	byName := map[string][]*ssa.Function{}
+	for _, f := range c.P.ScopeFuncs() {
+		if f.Signature.Recv() != nil && f.Parent() == nil {
+			byName[f.Name()] = append(byName[f.Name()], f)
+		}
+	}
+	calleesOf := func(in ssa.Instruction) []*ssa.Function {
+		ci, ok := in.(ssa.CallInstruction)
+		if !ok {
+			return nil
+		}
+		if _, isGo := in.(*ssa.Go); isGo {
+			return nil
+		}
+		cm := ci.Common()
+		if cm.IsInvoke() {
+			n := namedOf(cm.Value.Type())
+			if n == nil || n.Obj().Pkg() == nil || !InRepo(n.Obj().Pkg().Path()) {
+				return nil
+			}
+			it, ok := cm.Value.Type().Underlying().(*types.Interface)
+			if !ok {
+				return nil
+			}
+			var out []*ssa.Function
+			for _, m := range byName[cm.Method.Name()] {
+				if implementsLoose(m.Signature.Recv().Type(), it) {
+					out = append(out, m)
+				}
+			}
+			return out
+		}
+		if sc := cm.StaticCallee(); sc != nil && InRepo(funcPkgPath(sc)) {
+			return []*ssa.Function{sc}
+		}
+		return nil
+	}
+	for changed := true; changed; {
+		changed = false
+		for _, f := range c.P.ScopeFuncs() {
+			if !InRepo(funcPkgPath(f)) || mayBlock[f] != "" {
+				continue
+			}
+			eachInstr(f, func(in ssa.Instruction) {
+				if mayBlock[f] != "" {
+					return
+				}
+				if _, isDefer := in.(*ssa.Defer); isDefer {
+					return
+				}
+				for _, g := range calleesOf(in) {
+					if why, ok := mayBlock[g]; ok && g != f {
+						mayBlock[f] = "calls " + funcName(g) + " (" + short(why) + ")"
+						changed = true
+						return
+					}
+				}
+			})
+		}
+	}
+	isLock := func(name string) IP {
+		return func(in ssa.Instruction) bool {
+			ci, ok := in.(ssa.CallInstruction)
+			if !ok {
+				return false
+			}
+			if _, isDefer := in.(*ssa.Defer); isDefer {
+				return false
+			}
+			o := calleeObj(ci.Common())
+			if o == nil || o.Name() != name || o.Pkg() == nil || o.Pkg().Path() != "sync" || len(ci.Common().Args) == 0 {
+				return false
+			}
+			fa, ok := ci.Common().Args[0].(*ssa.FieldAddr)
+			return ok && fieldOfAddr(fa) == mu
+		}
+	}
+	nLock := 0
+	for _, f := range c.P.ScopeFuncs() {
+		if funcPkgPath(f) != modPath {
+			continue
+		}
+		locks := findInstrs(f, OrIP(isLock("Lock"), isLock("RLock")))
+		if len(locks) == 0 {
+			continue
+		}
+		nLock += len(locks)
+		c.FuncsSet[funcName(f)] = true
+		target := func(in ssa.Instruction) bool {
+			for _, g := range calleesOf(in) {
+				if _, ok := mayBlock[g]; ok {
+					return true
+				}
+			}
+			// a wait site in the function itself
+			switch x := in.(type) {
+			case *ssa.Select:
+				return x.Blocking
+			case *ssa.UnOp:
+				return x.Op == token.ARROW
+			}
+			return false
+		}
+		w := (&Cut{Fn: f, Start: OrIP(isLock("Lock"), isLock("RLock")), Target: target, Barrier: OrIP(isLock("Unlock"), isLock("RUnlock"))}).Run()
+		detail := "connection and server teardown need Transport.mutex (Remove, ReplaceWithClosed, closeServer): waiting for them with the mutex held deadlocks Transport.Close and every blocked Accept"
+		if w != nil {
+			detail += " — " + w.String(c.P)
+		}
+		c.Check(w == nil, R, "lock:"+funcName(f)+" makes no blocking call while holding Transport.mutex", c.P.Pos(f.Pos()), detail)
+	}
+	c.Floor(R, "Transport.mutex acquisitions", nLock, 8)
 }
